@@ -20,9 +20,10 @@ CLAIMS = {
  "C17": ("symbolic execution of the real object-file readers on skeleton files with symbolic header fields/characters; every access bounds-checked, loops bounded by the step budget", "1 (C17)"),
  "C18": ("symbolic execution of naken_asm's real main() with -l on programs with symbolic bytes/operands; listing parsed with branch-free arithmetic; Z3 decides listed byte == output byte and coverage", "1 (C18)"),
  "C19": ("symbolic execution of the real naken_util memory commands (write*/print*, address and number parsers, Memory) with symbolic values and engine-enumerated addresses/spellings; Z3 decides read-back equality and frame conditions", "1 (C19)"),
+ "C20": ("symbolic execution of the real main() linking a crafted ELF32 object / ar archive (symbolic instruction words, engine-enumerated call sites, targets and program calls) through Linker, imports_obj/imports_ar, AsmContext::link and link_function_mips; Z3 decides placement-once, byte identity and call binding on the output image", "1 (C20)"),
  "C08": ("symbolic execution of each disasm_<cpu>() over symbolic byte windows; Z3 decides length/termination/bounds/locality assertions", "1 (C08)"),
 }
-NOT_YET = {"C20": "no check built: the linker path (imports_obj/imports_ar/Linker/link_function_mips) needs a crafted ELF32 relocatable skeleton with symbolic fields; it was not reached in the time available. The technique applies (same file-skeleton approach as C17); it is declined for lack of time, not of applicability"}
+NOT_YET = {}
 ALL = ["C%02d" % i for i in range(1, 21)]
 checks = []
 for pid, (tech, ref) in sorted(CLAIMS.items()):
